@@ -27,6 +27,11 @@ impl Cluster {
     pub fn iter(&self) -> Iter<'_, SpacePoint> {
         self.0.iter()
     }
+    /// Verification hook: a cluster made of arbitrary points.
+    #[cfg(alpha_g_verif)]
+    pub fn verif_new(points: Vec<SpacePoint>) -> Self {
+        Cluster(points)
+    }
 }
 
 impl<'a> IntoIterator for &'a Cluster {
